@@ -143,7 +143,7 @@ def _direct_case(case):
             return result(False, sig=f"direct|entanglement_entropy|{'nonfinite' if not np.isfinite(got.real) else 'value'}", msg=f"{kind} state on {n} sites (dim {dim}) written with {pad} unused bond channel(s): entanglement entropy at bond {cut} is {got}, definition gives {ref}", outcome="viol")
         # the state itself must still be the same vector afterwards
         after = mps_to_vec(mps.factors)
-        if abs(abs(np.vdot(after, vec)) - np.linalg.norm(after)) > 1e-9 * np.linalg.norm(after):
+        if not abs(abs(np.vdot(after, vec)) - np.linalg.norm(after)) <= 1e-9 * np.linalg.norm(after):  # NaN fails
             return result(False, sig="direct|entanglement_entropy|state-changed", msg=f"{kind} on {n} sites: the state changed direction while its entropy was computed", outcome="viol")
     return result(True, outcome=["direct", kind, n, dim, pad], states=cnt, transitions=cnt, nontrivial=kind != "product")
 
@@ -206,7 +206,7 @@ def _vec(n, kind, seed, dim):
 def _amps(v, n, dim, letters):
     amps = {}
     for idx, a in enumerate(v):
-        if abs(a) > 0:
+        if not abs(a) <= 0:  # NaN fails
             digits = np.base_repr(idx, dim).zfill(n)
             amps["".join(letters[int(c)] for c in digits)] = complex(a)
     return amps
